@@ -118,10 +118,10 @@ def _reap_stale_scratch(base):
             with open(os.path.join(d, "owner.pid")) as f:
                 pid = int(f.read().strip())
             os.kill(pid, 0)
-        except (ProcessLookupError, ValueError):
+        except ProcessLookupError:
             shutil.rmtree(d, ignore_errors=True)
-        except (OSError, PermissionError):
-            continue
+        except (OSError, PermissionError, ValueError):
+            continue  # no / empty / unreadable owner file: may be a run that is just starting
 
 
 def cleanup_scratch():
